@@ -159,8 +159,15 @@ impl Gen {
                 return cand;
             }
         }
-        if self.rng.chance(40) && value_valid(c, &Val::Str(String::new())) {
+        if self.rng.chance(if c.key { 90 } else { 40 }) && value_valid(c, &Val::Str(String::new())) {
             return String::new();
+        }
+        // a few kilobytes with multi-byte characters (encoders work in 1 KiB chunks)
+        if w == 0 && matches!(cat, None | Some("Text")) && self.rng.chance(10) {
+            let tok = self.token(false);
+            let n = 1000 + self.rng.usize_below(1200);
+            let f = self.filler(n, cat);
+            return format!("{}{}", tok, f);
         }
         if self.allow_long && w == 0 && matches!(cat, None | Some("Text")) && self.rng.chance(8) {
             self.serial += 1;
@@ -278,9 +285,10 @@ impl Gen {
                     _ => c.category = Some("LowerCase".into()),
                 }
                 if c.category.is_none() && self.rng.chance(120) {
-                    let e: &[&str] = match self.rng.below(3) {
+                    let e: &[&str] = match self.rng.below(4) {
                         0 => &["Y", "N"],
                         1 => &["red", "green", "blue"],
+                        2 => &[" on", "off ", "auto", "two words"],
                         _ => &["a"],
                     };
                     if w == 0 || e.iter().all(|s| s.len() <= w as usize) {
@@ -681,6 +689,15 @@ impl Gen {
                 b.to_uppercase()
             } else {
                 b.to_lowercase()
+            }
+        } else if self.rng.chance(400) && !self.model.tables.is_empty() {
+            // a stream that merely shares its prefix with a table
+            let ts: Vec<&String> = self.model.tables.keys().collect();
+            let t = (*self.rng.pick(&ts)).clone();
+            match self.rng.below(3) {
+                0 => format!("{}.{}", t, self.rng.pick(&["ico", "AppIcon.ico", "x"])),
+                1 => t,
+                _ => format!("{}X.y", t),
             }
         } else {
             format!("Icon.{}.ico", self.rng.below(50))
@@ -1104,7 +1121,7 @@ impl Gen {
             5 => Some(Op::Delete { table: "NoSuchTable".into(), cond: None }),
             6 => Some(Op::Select { table, cols: vec!["Nope".into()], cond: None }),
             7 => Some(Op::DropTable {
-                name: self.rng.pick(&["_Tables", "_Columns", "_Validation", "NoSuch", "9bad", ""]).to_string(),
+                name: self.rng.pick(&["_Tables", "_Columns", "_Validation", "NoSuch", "9bad", "", "T1", "T2", "T3", "T9"]).to_string(),
             }),
             _ => Some(Op::RemoveStream { name: "NoSuchStream".into() }),
         }
@@ -1626,7 +1643,7 @@ pub fn generate(property: &str, profile: Profile, seed: u64, run: u64) -> Trace 
     };
     let ptype = *rng.pick(&[PType::Installer, PType::Installer, PType::Patch, PType::Transform]);
     let big_script = profile == Profile::Script && rng.chance(200);
-    let (init, model) = if profile == Profile::Foreign || (profile == Profile::Corrupt && rng.chance(300)) || (profile == Profile::ReadOnly && rng.chance(300)) || (profile == Profile::Reject && rng.chance(250)) || big_script {
+    let (init, model) = if profile == Profile::Foreign || (profile == Profile::Corrupt && rng.chance(300)) || (profile == Profile::ReadOnly && rng.chance(300)) || (profile == Profile::Reject && rng.chance(250)) || (profile == Profile::Schema && rng.chance(150)) || big_script {
         let spec = gen_foreign_spec(&mut rng, big_script);
         cp_set = vec![if spec.codepage == 0 { 65001 } else { spec.codepage }];
         alphabet = if spec.codepage == 0 { Vec::new() } else { crate::cp::common_chars(&cp_set) };
@@ -1761,9 +1778,10 @@ pub fn gen_corruption(rng: &mut Prng) -> CorruptSpec {
         29..=30 => CorruptSpec::RandomBytes(rng.below(3000) as u32, rng.next_u64() as u32),
         31..=58 => CorruptSpec::Cell(rng.next_u64() as u32, rng.next_u64() as u32, rng.below(4) as u8),
         59..=70 => CorruptSpec::StreamLen(rng.next_u64() as u32, rng.below(5) as u8, rng.next_u64() as u32),
-        71..=74 => CorruptSpec::PoolHeader(rng.below(3) as u8),
+        71..=74 => CorruptSpec::PoolHeader(rng.below(4) as u8),
         75..=84 => CorruptSpec::PoolEntry(rng.next_u64() as u32, rng.below(5) as u8),
-        85..=94 => CorruptSpec::PropSet(rng.below(16) as u8, rng.next_u64() as u32),
+        85..=92 => CorruptSpec::PropSet(rng.below(18) as u8, rng.next_u64() as u32),
+        93..=94 => CorruptSpec::DataHighBit(rng.next_u64() as u32),
         95..=96 => CorruptSpec::AddEntry(rng.below(8) as u8),
         97 => CorruptSpec::PoolGrow(*rng.pick(&[1u32, 70, 65_535, 70_000, 80_000])),
         _ => CorruptSpec::RootClsid,
